@@ -520,7 +520,7 @@ func init() {
 		sample(map[string]interface{}{"pair": []string{"GPL-2.0+", "GPL-2.0-or-later"}, "contexts": []string{"expr-alone", "list-alone", "expr-in-and", "expr-in-or", "list-among"}})
 		// "at any position of the expression or of the allowed list": generated trees and lists (with sibling terms that
 		// differ only by exception / '+' / version), one term re-spelled, everything else untouched
-		for i := 0; i < scale(4000, 60000); i++ {
+		for i := 0; i < scale(4000, 60000) && !timeUp("props_term.go:523"); i++ {
 			if f := c08TreeSubstitution(); f != nil {
 				fail(*f)
 			}
